@@ -65,5 +65,30 @@ static inline str_t *str_t__op_addassign_cstr(str_t *s, const char *lit)
   return s;
 }
 VEC_DECL(vec_u8, unsigned char)
+/* iterators of an octet vector: (container, position).  Range operations ASSERT what the standard library
+ * requires and does not check: both iterators belong to one container, first <= last <= end. */
+typedef struct { vec_u8 *v; size_t i; } vec_u8_iter;
+static inline vec_u8_iter vec_u8__begin(vec_u8 *v) { vec_u8_iter r; r.v = v; r.i = 0; return r; }
+static inline vec_u8_iter vec_u8__end(vec_u8 *v) { vec_u8_iter r; r.v = v; r.i = v->size; return r; }
+static inline vec_u8_iter vec_u8_iter__op_add(vec_u8_iter it, long n)
+{ __CPROVER_assert(n >= 0 && it.i + (size_t)n >= it.i, "iterator arithmetic does not wrap");
+  it.i = it.i + (size_t)n; return it; }
+static inline void vec_u8__insert(vec_u8 *dst, vec_u8_iter pos, vec_u8_iter first, vec_u8_iter last)
+{
+  __CPROVER_assert(first.v == last.v, "insert: both source iterators belong to one container");
+  __CPROVER_assert(first.i <= last.i && last.i <= first.v->size, "insert: source range lies inside the source container");
+  __CPROVER_assert(pos.v == dst && pos.i == dst->size, "model limit: insert is modelled at end() only");
+  size_t cnt = last.i - first.i;
+  __CPROVER_assert(cnt <= dst->cap - dst->size, "model limit: vector capacity");
+  for (size_t k = 0; k < cnt; k++) { dst->data[dst->size] = first.v->data[first.i + k]; dst->size = dst->size + 1; }
+}
+static inline void vec_u8__erase(vec_u8 *v, vec_u8_iter first, vec_u8_iter last)
+{
+  __CPROVER_assert(first.v == v && last.v == v, "erase: iterators belong to this container");
+  __CPROVER_assert(first.i <= last.i && last.i <= v->size, "erase: range lies inside the container");
+  size_t cnt = last.i - first.i;
+  for (size_t k = last.i; k < v->size; k++) v->data[k - cnt] = v->data[k];
+  v->size = v->size - cnt;
+}
 
 #endif
